@@ -500,7 +500,10 @@ func newEnvironment(userVars map[string]string, newId uid.ID) (env *Environment,
 					WorkflowTemplateInfo: env.GetWorkflowInfo(),
 				})
 
-				errHooks := env.handleHooksWithNegativeWeights(env.Workflow(), trigger)
+				// e.Err may already carry the failure of an enter_<state> hook: Cancel replaces the error of the
+				// event, so we join ours to it instead of losing it
+				errHooksNeg := env.handleHooksWithNegativeWeights(env.Workflow(), trigger)
+				errHooks := errors.Join(e.Err, errHooksNeg)
 				if errHooks != nil {
 					// at after_<event> it will not cancel the transition but only set the error
 					e.Cancel(errHooks)
